@@ -481,12 +481,31 @@ class Injector(object):
         self.mode = None
         self.cut = 0
         self.tripped = False
+        self.rcount = 0
+        self.rk = None
+        self.rmarks = []
 
     def arm(self, k, mode, cut=0):
         self.count, self.k, self.mode, self.cut, self.tripped = 0, k, mode, cut, False
+        self.rcount, self.rk, self.rmarks = 0, None, []
+
+    def arm_read(self, k):
+        """the k-th open(..., 'rb') of the compact cache code fails once with EACCES (a transient permission
+        problem: a backup tool, a chmod in progress, an NFS hiccup); writes are not disturbed"""
+        self.arm(None, None)
+        self.rk = k
 
     def disarm(self):
         self.k = None
+        self.rk = None
+
+    def read_open(self, name):
+        i = self.rcount
+        self.rcount += 1
+        self.rmarks.append(self.count)
+        if self.rk is not None and i == self.rk:
+            self.tripped = True
+            raise PermissionError(errno.EACCES, 'injected: permission denied', name)
 
     def write(self, raw, b):
         b = bytes(b)
@@ -547,6 +566,8 @@ class Patched(object):
             if 'b' in mode and any(c in mode for c in 'wa+x'):
                 raw = _FRaw(inj, name, mode.replace('b', ''))
                 return io.BufferedRandom(raw) if '+' in mode else io.BufferedWriter(raw)
+            if 'b' in mode:
+                inj.read_open(name)
             return io.open(name, mode, *a, **kw)
         self.saved = ('open' in cc.__dict__, cc.__dict__.get('open'), fs.os)
         cc.open = traced_open
@@ -682,19 +703,33 @@ def run_fault_case(ctx, version, ops, label):
     with Patched(inj):
         inj.arm(None, None)
         real.defrag(0.0, 0)
-        n_defrag = inj.count
+        n_defrag, n_ropen = inj.count, inj.rcount
+        marks = list(inj.rmarks) + [inj.count]
     ks = list(range(n_defrag))
     nk = ctx.n(5, 14)
     if len(ks) > nk:
         ks = sorted(rng.sample(ks, nk))
-    for mode in ('once', 'full'):
-        for k in ks:
+    # opens for reading that were followed by writes (a row with live tiles was copied) first, then random ones
+    hot = [i for i in range(n_ropen) if marks[i + 1] > marks[i]]
+    rks = list(range(n_ropen))
+    if len(rks) > nk:
+        if len(hot) > nk - 2:
+            hot = rng.sample(hot, nk - 2)
+        rks = sorted(set(hot + rng.sample(rks, 2)))
+    for mode in ('once', 'full', 'eacces'):
+        for k in (rks if mode == 'eacces' else ks):
             restore(snap, cache_dir)
             sizes0 = {(key, ext): os.path.getsize(base + ext) for key, base in bundle_files(cache_dir).items()
                       for ext in ('.bundle', '.bundlx') if os.path.exists(base + ext)}
             rep = dict(replay, fault={'operation': 'defrag_compact_cache(min_percent=0, min_bytes=0)', 'raw_write': k, 'mode': mode})
+            if mode == 'eacces':
+                rep['fault'] = {'operation': 'defrag_compact_cache(min_percent=0, min_bytes=0)', 'open_for_reading': k,
+                                'mode': 'EACCES once'}
             with Patched(inj):
-                inj.arm(k, mode)
+                if mode == 'eacces':
+                    inj.arm_read(k)
+                else:
+                    inj.arm(k, mode)
                 res = real.defrag(0.0, 0)
                 inj.disarm()
             nfaults += 1
@@ -703,7 +738,7 @@ def run_fault_case(ctx, version, ops, label):
             for a in daddrs:
                 if got[a] != before[a]:
                     ctx.fail('v%d,fault-defrag-changed-tile' % version,
-                             'defragmentation hit a write error (%s): address %r: %s before, %s after' % (
+                             'defragmentation hit an injected error (outcome: %s): address %r: %s before, %s after' % (
                                  res[0], a, short(before[a]), short(got[a])),
                              dict(rep, address=list(a), before=short(before[a]), after=short(got[a])))
             check_files(ctx, real, rep, 'after a defragmentation that hit a write error', strict=False)
@@ -894,6 +929,86 @@ def run_race_case(ctx, version, variant, label):
                 sig_invalid=sig if variant == 'reader' else None)
     ctx.case(('race', version, variant), nontrivial=True, sample={'format': 'v%d' % version, 'kind': 'two writers', 'schedule': variant,
                                                                  'errors': errors})
+
+
+def run_reader_new_bundle(ctx, label):
+    """v1: a writer stores the first tile of a new bundle; as soon as it is about to create the data file
+    (ensure_directory for *.bundle) a reader asks for a neighbour tile.  If the reader finds an index it goes on to
+    BundleDataV1() and - should the data file not exist - creates one too: it is held right before the creation until
+    the writer has finished, then renames its fresh file into place.  In the code as it is the writer creates the
+    data file BEFORE the index, the reader sees no index and returns at once (window closed)."""
+    import mapproxy.cache.compact as cc
+    d = ctx.tmpdir('c19n')
+    cache_dir = os.path.join(d, 'cache')
+    real = Real(1, cache_dir)
+    A, B = (5, 7, 3), (6, 7, 3)
+    da = bytes([65]) * 30000
+    WAIT = 10
+    w_at_gate, w_go, r_at_gate, r_go = (threading.Event() for _ in range(4))
+    who, once, errors = {}, set(), []
+    orig_ensure = cc.ensure_directory
+
+    def ensure_directory(filename, *a, **kw):
+        t = threading.current_thread()
+        if filename.endswith('.bundle'):
+            if t is who.get('W') and 'w' not in once:
+                once.add('w')
+                w_at_gate.set()
+                w_go.wait(WAIT)
+            elif t is who.get('R') and 'r' not in once:
+                once.add('r')
+                r_at_gate.set()
+                r_go.wait(WAIT)
+        return orig_ensure(filename, *a, **kw)
+
+    def writer():
+        r = Real(1, cache_dir).store([(A, list(da))])
+        if r != ('ok', True):
+            errors.append('writer: %r' % (r,))
+
+    def reader():
+        Real(1, cache_dir).load(B)
+    cc.ensure_directory = ensure_directory
+    try:
+        w = threading.Thread(target=writer, name='W', daemon=True)
+        r = threading.Thread(target=reader, name='R', daemon=True)
+        who['W'], who['R'] = w, r
+        w.start()
+        if not w_at_gate.wait(WAIT):
+            ctx.problem('harness', 'reader/new-bundle schedule: the writer never created a data file', None)
+            return
+        r.start()
+        n = WAIT * 10
+        while n > 0 and not r_at_gate.wait(0.1) and r.is_alive():
+            n -= 1
+        held = r_at_gate.is_set()
+        w_go.set()
+        w.join(3 * WAIT)
+        r_go.set()
+        r.join(3 * WAIT)
+    finally:
+        for e in (w_go, r_go):
+            e.set()
+        cc.ensure_directory = orig_ensure
+    if w.is_alive() or r.is_alive():
+        ctx.problem('harness', 'reader/new-bundle schedule did not terminate', None)
+        return
+    ctx.count('race=reader-new-bundle,%s' % ('reader-created-a-data-file' if held else 'window-closed'))
+    replay = {'format': 'v1', 'label': label,
+              'schedule': ['writer store_tile%r: stopped before it creates the data file' % (A,),
+                           'reader load_tile%r: %s' % (B, 'stopped before it creates a data file' if held else 'returns'),
+                           'writer finishes', 'reader finishes']}
+    check_files(ctx, real, replay, 'after a reader met the writer of a new v1 bundle', strict=False)
+    got = real.load(A)
+    if got != ('data', da) or errors:
+        ctx.fail('v1,race-new-bundle-wrong-bytes',
+                 'a reader met the writer of a new bundle: load_tile%r returns %s after the store returned %r' % (
+                     A, short(got), errors or 'True'), dict(replay, address=list(A), got=short(got)))
+    if real.load(B) != ('missing',):
+        ctx.fail('v1,race-new-bundle-wrong-bytes', 'never stored address %r returns %s' % (B, short(real.load(B))),
+                 dict(replay, address=list(B)))
+    ctx.case(('race', 1, 'reader-new-bundle'), nontrivial=True,
+             sample={'format': 'v1', 'kind': 'reader meets writer of a new bundle', 'reader_held': held})
 
 
 # ------------------------------------------------------------------------------------- generators
@@ -1249,6 +1364,10 @@ def run(ctx):
                 run_fault_case(ctx, version, gen_fault_history(ctx), 'fault-%d' % i)
             except Exception as ex:   # noqa
                 ctx.problem('harness', 'fault case %d (v%d) could not be run: %r' % (i, version, ex), None)
+    try:
+        run_reader_new_bundle(ctx, 'race-reader-new-bundle')
+    except Exception as ex:   # noqa
+        ctx.problem('harness', 'race case reader-new-bundle could not be run: %r' % (ex,), None)
     for version, variant in ((2, 'mid'), (2, 'late'), (1, 'reader')):
         if True:
             try:
